@@ -443,7 +443,7 @@ def string_cases(rng):
             bad.append("b")
         if U.string_spec("IA5String", [], ("", set(b"xy")), c):
             bad.append("c")
-        cases.append({"tn": "XS", "label": "seq", "der": der, "bad": bad, "known": "C08-sequence-early-return" if bad == ["c"] else None,
+        cases.append({"tn": "XS", "label": "seq", "der": der, "bad": bad, "known": None,
                       "what": "XS %r %r %r" % (a, b, c)})
     return cases
 
